@@ -91,6 +91,7 @@ COLLISIONS = {
     "NewType of a sibling module used as a type": {"c10/__init__.py": "", "c10/nt.py": "from typing import NewType\n\nUserId = NewType('UserId', int)\n\n\nclass Holder:\n    def h(self) -> int:\n        return 1\n", "c10/use.py": "from vpkg.c10.nt import UserId\n\n\ndef use(u: UserId) -> int:\n    return 1\n"},
     "names with two leading underscores": {"c12/__init__.py": "from . import __core\nfrom ._v import __vi__\n", "c12/__core.py": "def fc() -> int:\n    return 1\n", "c12/_v.py": "def __vi__() -> int:\n    return 1\n", "c12/__plain.py": "def fp() -> int:\n    return 1\n"},
     "alias of a class whose name ends with another re-exported name": {"c13/__init__.py": "from ._m2 import Bar, FooBar as FB\n", "c13/_m2.py": "class Bar:\n    def b(self) -> int:\n        return 1\n\n\nclass FooBar:\n    def f(self) -> int:\n        return 1\n", "c13/pub.py": "def p() -> int:\n    return 1\n"},
+    "two classes with one name re-exported, one under an alias": {"c14/__init__.py": "from ._a import Foo\nfrom ._b import Foo as BFoo\nfrom ._a import fun as f1\nfrom ._b import fun as f2\n", "c14/_a.py": "class Foo:\n    def a(self) -> int:\n        return 1\n\n\ndef fun() -> int:\n    return 1\n", "c14/_b.py": "class Foo:\n    def b(self) -> int:\n        return 1\n\n\ndef fun() -> str:\n    return ''\n", "c14/pub.py": "def p() -> int:\n    return 1\n"},
     "same class re-exported by two packages": {"c7/__init__.py": "from .p1._i import K\n", "c7/p1/__init__.py": "from ._i import K\n", "c7/p1/_i.py": "class K:\n    def k(self) -> int:\n        return 1\n"},
 }
 
@@ -98,7 +99,7 @@ COLLISIONS = {
 def run(rep: Report, tier: str, seed: int) -> None:
     specs = enumerate_trees(tier)
     rep.rule = (
-        "C03 trees (packed 120 per run) x naming conversion off/on, every output file checked; 16 inputs built to collide or to confuse the path computation (two stub texts for one path, declarations named like / prefix of the re-exporting package, class named like an ancestor package, module named like its package);"
+        "C03 trees (packed 120 per run) x naming conversion off/on, every output file checked; 17 inputs built to collide or to confuse the path computation (two stub texts for one path, declarations named like / prefix of the re-exporting package, class named like an ancestor package, module named like its package);"
         " console-script runs over 8 spellings of source/output path (absolute, relative, trailing slash, '..', pre-existing output, output inside source's parent, source given as parent directory); distinct = distinct (tree/input label, options)"
     )
     spec_by_tid = {s.tid: s for s in specs}
